@@ -25,6 +25,7 @@ def gen_program(g, length):
     units = fams[fam]
     arrays, vectors, groups, datasets = [], [], [], []
     meta = {}  # var -> (dtype, shape)
+    tgt_comps = {}  # vector var -> its component Array vars
 
     def new_array(shape=None, dt=None):
         shape = [n] if shape is None else shape
@@ -50,6 +51,7 @@ def gen_program(g, length):
         prog.append({"op": "vec", "dst": v, "comps": cs, "name": ""})
         vectors.append(v)
         meta[v] = (dt, shape)
+        tgt_comps[v] = cs
         return v
 
     for _ in range(2):
@@ -108,6 +110,25 @@ def gen_program(g, length):
             if rhs["k"] == "var" or r.random() < 0.4:
                 cand = [v for v in vectors if meta[v][1] == meta[tgt][1]]
                 rhs = {"k": "var", "v": r.choice(cand)} if opn in ("add", "sub") else rhs
+            alias = r.random()
+            if alias < 0.2 and meta[tgt][0] == "f8":
+                # the right operand aliases the target: one of its own component Arrays (v *= v.x), or a Vector made of its
+                # components in another order (v += Vector(v.y, v.x)); x op= y must still give x op y
+                comps = tgt_comps.get(tgt)
+                if comps:
+                    if alias < 0.1:
+                        opn = r.choice(["add", "sub", "mul"])
+                        rhs = {"k": "var", "v": r.choice(comps)}
+                    elif len(comps) > 1:
+                        opn = r.choice(["add", "sub"])
+                        perm = comps[:]
+                        r.shuffle(perm)
+                        u2 = fresh()
+                        prog.append({"op": "vec", "dst": u2, "comps": perm, "name": ""})
+                        vectors.append(u2)
+                        meta[u2] = meta[tgt]
+                        tgt_comps[u2] = perm
+                        rhs = {"k": "var", "v": u2}
             d = tgt if r.random() < 0.8 else fresh()
             prog.append({"op": "bin", "dst": d, "name": opn, "a": tgt, "rhs": rhs, "inplace": True})
             if d != tgt:
